@@ -427,15 +427,8 @@ class CSSPageRule(cssrule.CSSRuleRules):
             # done or error
             return
 
-        # check hierarchy
-        if (
-            isinstance(rule, cssutils.css.CSSCharsetRule)
-            or isinstance(rule, cssutils.css.CSSFontFaceRule)
-            or isinstance(rule, cssutils.css.CSSImportRule)
-            or isinstance(rule, cssutils.css.CSSNamespaceRule)
-            or isinstance(rule, CSSPageRule)
-            or isinstance(rule, cssutils.css.CSSMediaRule)
-        ):
+        # check hierarchy: only margin rules (and comments) live in @page
+        if not isinstance(rule, (cssutils.css.MarginRule, cssutils.css.CSSComment)):
             self._log.error(
                 '%s: This type of rule is not allowed here: %s'
                 % (self.__class__.__name__, rule.cssText),
